@@ -243,6 +243,8 @@ def generate(rng):
             op = {"op": "remove_bond_order", "r": a}
         else:
             op = {"op": "copy", "r": a, "dst": rng.randrange(nreg)}
+        if op["op"] in ("add_bond", "remove_bond", "remove_bonds_to", "get_bonds", "contains") and rng.random() < 0.3:
+            op["np"] = rng.choice(["int64", "int64", "int32", "uint8", "intp", "int16", "uint64"])
         ops.append(op)
         res = apply_model(ms, op)
         if res[0] == "ok" and res[1] is not None:
@@ -483,18 +485,27 @@ class Sim:
                     return BL(op["n"], a), None
                 return BL(op["n"]), None
             return f
+        def sc(v):
+            """The scalar index as the caller holds it: a Python int, or the numpy integer scalar np.where / argmax /
+            iterating over an index array hand out (when the value fits that type)."""
+            t = op.get("np")
+            if t is None:
+                return v
+            info = np.iinfo(getattr(np, t))
+            return getattr(np, t)(v) if info.min <= v <= info.max else v
+
         if name == "add_bond":
-            return lambda: (None, R[op["r"]].add_bond(op["i"], op["j"], op["t"]))
+            return lambda: (None, R[op["r"]].add_bond(sc(op["i"]), sc(op["j"]), op["t"]))
         if name == "remove_bond":
-            return lambda: (None, R[op["r"]].remove_bond(op["i"], op["j"]))
+            return lambda: (None, R[op["r"]].remove_bond(sc(op["i"]), sc(op["j"])))
         if name == "remove_bonds_to":
-            return lambda: (None, R[op["r"]].remove_bonds_to(op["i"]))
+            return lambda: (None, R[op["r"]].remove_bonds_to(sc(op["i"])))
         if name == "get_bonds":
             if op["how"] == "method":
-                return lambda: (None, R[op["r"]].get_bonds(op["i"]))
-            return lambda: (None, R[op["r"]][op["i"]])
+                return lambda: (None, R[op["r"]].get_bonds(sc(op["i"])))
+            return lambda: (None, R[op["r"]][sc(op["i"])])
         if name == "contains":
-            return lambda: (None, (op["i"], op["j"]) in R[op["r"]])
+            return lambda: (None, (sc(op["i"]), sc(op["j"])) in R[op["r"]])
         if name == "index":
             return lambda: (R[op["r"]][np_index(op["idx"])], None)
         if name == "merge":
